@@ -272,6 +272,10 @@ def write_harness(ws):
     if not os.path.exists(disp):
         subprocess.run(["python3", "-m", "tools.gen_dispatch"], cwd=C.VERIF, check=True)
     _write_if_changed(os.path.join(src, "generated", "login_dispatch.rs"), open(disp).read())
+    # the typed expect entry points name shipped messages; the scratch tree replaces some of them
+    _write_if_changed(os.path.join(src, "generated", "expect_dispatch.rs"),
+                      "// @generated by tools/c07_common.py: no typed expect entry points in the C07 harness\n"
+                      "pub fn expect(_exp: &str, _name: &str, _input: &[u8]) -> Option<Result<(), String>> {\n    None\n}\n")
     _write_if_changed(os.path.join(src, "main.rs"), """//! @generated by tools/c07_common.py - `vh codec` against the codecs generated from C07's programs.
 mod codec;
 mod util;
